@@ -27,7 +27,7 @@ def _tools(workdir):
     return d
 
 
-def generate(workdir, name, protos, options=(), timeout=300):
+def generate(workdir, name, protos, options=(), timeout=300, rerun=None):
     """protos: {relative path: text}.  Output goes to <workdir>/<name>/gen (gen is a package below a path root).
     Returns dict(rc, err, root, descriptor_set path)."""
     tools = _tools(workdir)
@@ -51,6 +51,21 @@ def generate(workdir, name, protos, options=(), timeout=300):
            "--descriptor_set_out=" + dset, "--include_imports"]
     if options:
         cmd.append("--python_betterproto_opt=" + ",".join(options))
+    if rerun is not None:
+        # incremental use: protoc is run from inside the output directory (--python_betterproto_out=.), first on all files,
+        # then again on a subset only; what the first run wrote for the other packages must still be there
+        base = [a for a in cmd if not a.startswith("--python_betterproto_out=")] + ["--python_betterproto_out=."]
+        base = [a if a != "-I" else a for a in base]
+        try:
+            p = subprocess.run(base + sorted(protos), cwd=gen, env=env, stdout=subprocess.PIPE, stderr=subprocess.STDOUT, text=True, timeout=timeout)
+            rc, err = p.returncode, p.stdout[-1500:]
+            if rc == 0:
+                second = [a for a in base if not a.startswith("--descriptor_set_out=")] + ["--descriptor_set_out=" + dset + ".2"]
+                p = subprocess.run(second + sorted(rerun), cwd=gen, env=env, stdout=subprocess.PIPE, stderr=subprocess.STDOUT, text=True, timeout=timeout)
+                rc, err = p.returncode, p.stdout[-1500:]
+        except subprocess.TimeoutExpired:
+            rc, err = 124, "timeout"
+        return {"rc": rc, "err": err, "root": root, "dset": dset}
     cmd += sorted(protos)
     try:
         p = subprocess.run(cmd, cwd=src, env=env, stdout=subprocess.PIPE, stderr=subprocess.STDOUT, text=True, timeout=timeout)
@@ -258,10 +273,10 @@ def drop_rejected(ctx, events, *parallel):
     return [[lst[k] for k in keep] for lst in (events,) + parallel]
 
 
-def compile_event(workdir, name, protos, options=(), keep=False):
+def compile_event(workdir, name, protos, options=(), keep=False, rerun=None):
     """generate + import + describe: one event for Trace_Plugin"""
     import shutil
-    r = generate(workdir, name, protos, options)
+    r = generate(workdir, name, protos, options, rerun=rerun)
     ev = {"rc": r["rc"], "err": r["err"][-300:] if r["rc"] else "", "imp": "ok", "errors": [], "pydantic": "pydantic_dataclasses" in options,
           "stdmod": "betterproto.lib.pydantic.google.protobuf" if "pydantic_dataclasses" in options else "betterproto.lib.std.google.protobuf",
           "prog": {"msgs": [], "enums": [], "services": [], "pkgpaths": []}, "obs": {"messages": [], "enums": [], "routes": []}, "options": list(options),
